@@ -495,6 +495,43 @@ def validate_first_order(ctx, table):
                       what='gen/FirstOrder.v differs from FEMElementalAttribute._to_first_order on a probe array')
 
 
+def validate_facet_type(ctx, table):
+    """_generate_surface_core run on arrays of every width 0..12 and on a 1-D object array, compared in
+    Coq with the generated facet_type; the width -> type mirror the harness uses to hand facet groups
+    to the model ({3: tri, 4: quad, else polygon}) is compared with it as well"""
+    res = run_impl(ctx, [{'id': 0, 'probe_facet_type': True}], tag='probe2')[0]
+    sig = {'kind': 'translator-validation', 'table': 'facet_type'}
+    if 'error' in res:
+        ctx.violation('tie-broken', {'error': res['error'][-400:]}, 'probe of _generate_surface_core runs', 'child raised',
+                      'translator validation (facet_type)', found_input=False, signature=dict(sig, what='probe-failed'))
+        return
+    obs = res['probe']                       # [[w | '1d', type index | None], ...]
+    o = lambda v: 'None' if v is None else f'Some {int(v)}%nat'
+    items = ';'.join(f'({w}%nat, {o(v)})' for w, v in obs if w != '1d')
+    one_d = [v for w, v in obs if w == '1d']
+    mirror = ';'.join(f'({w}%nat, Some {({3: 3, 4: 5}).get(w, 7)}%nat)' for w in range(3, 13))
+    txt = (HEADER + 'From FV.C09 Require Import SurfaceTypes.\n'
+           f'Definition probes : list (nat * option nat) := [{items}].\n'
+           f'Definition mirror : list (nat * option nat) := [{mirror}].\n'
+           'Definition oeq (a b : option nat) := match a, b with None, None => true | Some x, Some y => Nat.eqb x y | _, _ => false end.\n'
+           'Goal True. idtac "@@ failing". Abort.\n'
+           'Eval vm_compute in (map fst (filter (fun c => negb (oeq (facet_type (fst c)) (snd c))) (probes ++ mirror)), '
+           f'oeq facet_type_1d ({o(one_d[0]) if one_d else "None"})).\n')
+    rc, out, err = ctx.coq_eval('ProbeFacetType', txt, timeout=600)
+    bad, ok1d = None, False
+    if rc == 0:
+        t = lib.parse_marked(out).get('failing', '').split(': list')[0]
+        ok1d = 'true' in t
+        bad = [int(x) for x in re.findall(r'\d+', t.split(']')[0].replace('%nat', ''))]
+    ctx.notes['translator_validation_facet_type'] = {'widths_probed': len(obs), 'differ': bad, 'one_d_agrees': ok1d}
+    if bad is None or bad or not ok1d or len(obs) != 14:
+        ctx.violation('tie-broken', {'observed': obs, 'translated': {str(k): v for k, v in table.items()}},
+                      'generated table = behaviour of the code = mirror used by the harness',
+                      {'widths_that_differ': bad, 'one_d_agrees': ok1d}, 'translator validation (facet_type)',
+                      found_input=bool(bad) or not ok1d, signature=sig,
+                      what='gen/FacetType.v differs from FEMElementalAttribute._generate_surface_core on a probe array')
+
+
 # ------------------------------------------- polyhedron meshes with the 'face' variable
 def gen_poly(rng):
     """1-4 polyhedra on shared nodes; the 'face' variable lists node POSITIONS per face (the cut
@@ -988,9 +1025,24 @@ def main(ctx):
     except OSError as e:
         tie_ok = False
         ctx.notes['translator_error'] = str(e)
+    # the width -> element type table of FEMElementalAttribute._generate_surface_core (gen/FacetType.v);
+    # unreadable source => baseline table (the probe below still compares it with the running code)
+    try:
+        ft_table, consumed3 = c09_cfg.translate_facet_type(str(lib.REPO))
+        ctx.sources = dict(ctx.sources or {}, **consumed3)
+        ctx.notes['translated_facet_type_table'] = {str(k): v for k, v in ft_table.items()}
+    except (c09_cfg.TranslateError, SyntaxError, OSError) as e:
+        ft_table = dict(c09_cfg.BASELINE_FACET_TYPE)
+        ctx.log('translator could not read _generate_surface_core:', e, '-> baseline table (validated by the probe)')
+        ctx.notes['translator_error_facet_type'] = str(e)
+    try:
+        lib.write_if_changed(lib.COQ / 'C09' / 'gen' / 'FacetType.v', c09_cfg.emit_facet_type(ft_table))
+    except OSError as e:
+        tie_ok = False
+        ctx.notes['translator_error'] = str(e)
     proof_ok = False
     if tie_ok:
-        proof_ok, log = ctx.build_props('C09/Props.v', extra_targets=['C09/Corr.vo', 'C09/CorrPoly.vo'],
+        proof_ok, log = ctx.build_props('C09/Props.v', extra_targets=['C09/Corr.vo', 'C09/CorrPoly.vo', 'C09/SurfaceTypes.vo'],
                                         scan_dirs=[lib.COQ / 'C09'])
         if not proof_ok:
             ctx.notes['build_log_tail'] = log[-1500:]
@@ -1002,8 +1054,9 @@ def main(ctx):
         for n in lib.theorem_names(lib.COQ / 'C09' / 'Props.v'):
             ctx.obligations.append({'name': n, 'discharged': False, 'assumptions': [],
                                     'note': 'translator failed closed'})
-        lib.coq_make(['C09/Corr.vo', 'C09/CorrPoly.vo', 'C09/gen/MeshCfg.vo'])
+        lib.coq_make(['C09/Corr.vo', 'C09/CorrPoly.vo', 'C09/SurfaceTypes.vo', 'C09/gen/MeshCfg.vo'])
     validate_first_order(ctx, fo_table)
+    validate_facet_type(ctx, ft_table)
 
     # cases: corpus, witnesses, generated
     meshes, cases = [], []
